@@ -90,11 +90,22 @@ pub fn enc_res<T>(r: Result<VfsResult<T>, String>, f: impl FnOnce(T) -> String) 
                 format!("ok {}", p)
             }
         }
-        Ok(Err(e)) => format!(
-            "err {} {}",
-            kind_name(e.kind()),
-            if e.path() == PLACEHOLDER { "-".to_string() } else { enc_str(e.path()) }
-        ),
+        Ok(Err(e)) => {
+            // the Display text (error.rs) shows the same path the accessor returns: "<context> for '<path>': <kind>"
+            let shown = format!("{}", e);
+            let display_ok = shown.contains(&format!("for '{}'", e.path()));
+            format!(
+                "err {} {}",
+                kind_name(e.kind()),
+                if e.path() == PLACEHOLDER {
+                    "-".to_string()
+                } else if !display_ok {
+                    enc_str("/DISPLAY-TEXT-SHOWS-ANOTHER-PATH")
+                } else {
+                    enc_str(e.path())
+                }
+            )
+        }
     }
 }
 fn enc_io<T>(r: Result<std::io::Result<T>, String>, f: impl FnOnce(T) -> String) -> String {
